@@ -176,14 +176,6 @@ Qed.
 Lemma wf_ctx_ok c : c03_wf c = true -> ctx_ok false false c = true.
 Proof. unfold ctx_ok, c03_wf. intros ->. reflexivity. Qed.
 
-(* no buffer is overrun: what is left is named *)
-Definition classified {A} (r : res A) : Prop :=
-  match r with
-  | Ok _ | Exc _ | Diverge => True
-  | OOB s => s = site_uninit_tag
-  | Fuel => False
-  end.
-
 Lemma c03_decode_safe_partial_lemma c bytes nc pm :
   c03_wf c = true -> tokens_bounded bytes = true -> classified (factory c real_caps bytes nc pm).
 Proof.
